@@ -1484,6 +1484,12 @@ fn push_opt_u8(out: &mut Vec<u8>, value: Option<u8>) {
 /// a user-space CSPRNG (ChaCha) that is periodically reseeded from OS
 /// entropy.
 fn rand_bytes<const N: usize>() -> [u8; N] {
+    #[cfg(feature = "verif")]
+    if let Some(scripted) = anda_db_utils::verif::take_entropy(N) {
+        let mut bytes = [0u8; N];
+        bytes.copy_from_slice(&scripted);
+        return bytes;
+    }
     let mut rng = rand::rng();
     let mut bytes = [0u8; N];
     rng.fill_bytes(&mut bytes);
